@@ -1130,6 +1130,8 @@ def execute(scenario, want_trace=False):
                 allf = [f for t in op["targets"].values() for f in t["files"]]
                 if len(allf) != len(set(allf)):
                     hit("sync with one file named under two kinds")
+                if op.get("hashseed") is not None and knobs.get("processes") == "spawn":
+                    hit("sync in a freshly started interpreter with its own hash seed")
                 if op.get("fault"):
                     hit("sync with fault")
                     if op["fault"].get("persist"):
